@@ -34,8 +34,8 @@ ANCHORS = [
     (E, "S256Point.parse"), (E, "S256Point.parse_sec"), (E, "S256Point.parse_xonly"),
 ]
 RULE = ("generic classes: every prime 5 <= p <= 61 (thorough: <= 251), the curve y^2 = x^3 + 7 plus seeded random "
-        "(a, b); all element pairs for the four field operations, all point pairs of every curve with p <= 61 "
-        "(sampled pairs above), scalar multiples around the group order; field / group axioms are evaluated on the "
+        "(a, b); all element pairs for the four field operations, all point pairs of y^2 = x^3 + 7 for p <= 61 and of every curve "
+        "for p <= 31 (sampled pairs otherwise), scalar multiples around the group order; field / group axioms are evaluated on the "
         "real classes per field / per curve (one evaluation = one complete field or curve). secp256k1: fixed "
         "boundary catalogue of scalars (0, 1, n-1, n, n+1, negative, >= 2^256, ...) plus seeded random scalars; "
         "points kG; pairs incl. equal / opposite / infinity; encodings of random points and a malformed stream "
@@ -198,10 +198,42 @@ def _impl(t):
     raise UnknownOp(op)
 
 
+# a call of the real code that does not return (e.g. `while coef:` on a negative int) is a failure; once a
+# call has hung in this process the limit drops, so that a broken tree is reported in minutes
+CALL_TIMEOUT_S = [20.0, 4.0]
+_hung = [False]
+
+
+class _Timeout(Exception):
+    pass
+
+
+def _alarm(signum, frame):
+    raise _Timeout()
+
+
+def guarded(fn, *args):
+    """run fn(*args) with a wall-clock limit; a hang of the real code becomes an exception (= REJECT)"""
+    import signal
+    import threading
+    if threading.current_thread() is not threading.main_thread():
+        return fn(*args)
+    old = signal.signal(signal.SIGALRM, _alarm)
+    signal.setitimer(signal.ITIMER_REAL, CALL_TIMEOUT_S[1] if _hung[0] else CALL_TIMEOUT_S[0])
+    try:
+        return fn(*args)
+    except _Timeout:
+        _hung[0] = True
+        raise
+    finally:
+        signal.setitimer(signal.ITIMER_REAL, 0)
+        signal.signal(signal.SIGALRM, old)
+
+
 def impl_line(line):
     t = line.split(" ")
     try:
-        return _impl(t)
+        return guarded(_impl, t)
     except UnknownOp:
         raise
     except Exception:
@@ -446,7 +478,7 @@ PREDICATES = {"field_axioms": p_field_axioms, "group_axioms": p_group_axioms,
 
 def eval_pred(kind, case):
     try:
-        return PREDICATES[kind](case)
+        return guarded(PREDICATES[kind], case) if kind not in ("field_axioms", "group_axioms") else PREDICATES[kind](case)
     except Exception as e:
         return False, "raised " + type(e).__name__, "no exception"
 
@@ -492,12 +524,6 @@ def is_residue(v):
     return v == 0 or pow(v, (P - 1) // 2, P) == 1
 
 
-def _smul_G(k):
-    from buidl.pecc import G
-    q = k * G
-    return None if q.x is None else (q.x.num, q.y.num)
-
-
 def run(ctx):
     rng, rec = ctx.rng, ctx.rec
     drv = ctx.driver("drv_c03")
@@ -539,7 +565,7 @@ def run(ctx):
             if nonsing:
                 preds.append(("group_axioms", {"p": p, "a": a, "b": b}))
             cs = curve_points(p, a, b)
-            if p <= all_pairs_max:
+            if p <= 31 or (p <= all_pairs_max and (a, b) == curves[0]):
                 ppairs = [(c1, c2) for c1 in cs for c2 in cs]
             else:
                 ppairs = [(rng.choice(cs), rng.choice(cs)) for _ in range(600)]
@@ -561,8 +587,9 @@ def run(ctx):
                 for c1 in cand:
                     lines.append(("oncurve", f"oncurve {p} {a} {b} {c_tok(c1)}", True))
             lines.append(("oncurve", f"oncurve {p} {a} {b} inf", False))
-    rec.note(f"generic classes: {len(primes)} prime fields 5..{pmax}, {n_curves} curves; all element pairs and all "
-             f"point pairs enumerated for p <= {all_pairs_max}")
+    rec.note(f"generic classes: {len(primes)} prime fields 5..{pmax}, {n_curves} curves; all element pairs enumerated for "
+             f"p <= {all_pairs_max}; all point pairs for y^2 = x^3 + 7 with p <= {all_pairs_max} and for every curve with "
+             f"p <= 31; group axioms evaluated on all points of every non-singular curve")
 
     # ---- secp256k1
     cat = scalar_catalogue()
@@ -571,9 +598,10 @@ def run(ctx):
                   [-rng.getrandbits(rng.choice([8, 200, 256, 300])) for _ in range(ctx.n(20, 200))]
     scalars = cat + rnd_scalars
     gtok = f"{GX} {GY}"
-    # points kG (computed on the real code, spread over the cores)
+    # points kG
     pk = [1, 2, 3, N - 1, N - 2, (N - 1) // 2, (N + 1) // 2] + [rng.randrange(1, N) for _ in range(ctx.n(50, 240))]
-    coords = pmap(_smul_G, pk, workers=ctx.workers)
+    # (computed by the model, so that the test points do not depend on the code under test)
+    coords = [take_pt(ans.split(" "), 0)[0] for ans in batch_parallel(drv, [f"smul {k} {gtok}" for k in pk], workers=ctx.workers)]
     pts = [None] + coords
     negs = [None if c is None else (c[0], P - c[1]) for c in pts]
     for k in scalars:
@@ -617,7 +645,7 @@ def run(ctx):
 
     # identities on the real code
     ident = [(a, b) for a in cat[:12] for b in (cat[3], cat[5], cat[12])]
-    ident += [(rng.choice(scalars), rng.choice(scalars)) for _ in range(ctx.n(200, 2000))]
+    ident += [(rng.choice(scalars), rng.choice(scalars)) for _ in range(ctx.n(150, 2000))]
     ident += [(a, N - a) for a in (1, 2, rng.randrange(N))] + [(a, -a) for a in (1, rng.randrange(N))]
     for a, b in ident:
         preds.append(("secp_add_hom", {"a": a, "b": b}))
@@ -628,7 +656,7 @@ def run(ctx):
         preds.append(("secp_neg_double", {"k": k}))
     for _ in range(ctx.n(100, 1000)):
         preds.append(("secp_add_int", {"k": rng.choice(scalars), "j": rng.choice(scalars)}))
-    for k in cat + [rng.randrange(N) for _ in range(ctx.n(400, 4000))]:
+    for k in cat + [rng.randrange(N) for _ in range(ctx.n(300, 4000))]:
         preds.append(("enc_roundtrip", {"k": k}))
 
     # encodings and the malformed stream
